@@ -12,7 +12,7 @@ RULE = ("envelopes over a pool of 1-5 keys, each key's entry drawn from 22 state
         "valid authorized signers; non-trivial = the envelope passes the argument checks and has at least one entry; "
         "distinct by (envelope, authorized list, threshold, mode)")
 
-THEOREMS = ["verifySignable_sound", "loop_counts_only", "counted_keys_distinct_bytes", "verifyDelegation_sound", "verifyRoot_sound"]
+THEOREMS = ["verifySignable_sound", "thresholdMet_iff_counting", "counted_keys_distinct_bytes", "threshold_needs_enough_authorized"]
 
 
 def signable_batch(ck: Check, n: int, want_modes=(False, True)):
